@@ -475,7 +475,7 @@ UNITS['build_full']['dyn_types'] += [r'^condition<int\(int\),\(lambdaat.*\)>$', 
 UNITS['build_full']['roots'].update({'BUILD_FULL': '^_ZN14vp_trompeloeil13vp_build_fullE', 'MOCK_FUNC': '9mock_funcILb0EFiiEJRiEE', 'SH2': 'rec:^sequence_handler<2>$'})
 for e, props in (('b_rt_times', ['C01', 'C03', 'C04', 'C05', 'C06', 'C08', 'C14', 'C15']), ('b_two_in_sequence', ['C02', 'C04', 'C05', 'C06', 'C14']), ('b_plain_and_forbid', ['C02', 'C03', 'C04', 'C05', 'C07', 'C14', 'C15']), ('b_multiplicities', ['C03', 'C04', 'C14']),
                  ('b_full_expectation', ['C01', 'C03', 'C04', 'C05', 'C06', 'C08', 'C14', 'C15', 'C16'])):
-    ob(name='build.%s' % e[2:], kind='FC+' if e in ('b_rt_times', 'b_full_expectation') else 'BL', props=props, unit='build_full' if e == 'b_full_expectation' else 'build', harness='h_build.c', entry=e, unwind=6, timeout=600,
+    ob(name='build.%s' % e[2:], cbmc_flags=['--memory-leak-check'], kind='FC+' if e in ('b_rt_times', 'b_full_expectation') else 'BL', props=props, unit='build_full' if e == 'b_full_expectation' else 'build', harness='h_build.c', entry=e, unwind=6, timeout=600,
        defines={'WANT_FULL': 1} if e == 'b_full_expectation' else {},
        bound='none for the scalars (free RT_TIMES bounds); one mock object, one sequence, one or two expectations built by the real constructor chain')
 
@@ -485,25 +485,25 @@ UNITS['c09'] = {
     'dyn_types': [r'^sequence_handler<[012]>$', r'^call_matcher<.*>$', r'^return_handler_t<.*lambdaat.*>$', r'^condition<.*\(lambdaat.*\)>$', r'^side_effect<.*\(lambdaat.*\)>$', r'^vp_vp_MI$'],
     'roots': {'C09_ALIAS': '^_ZN14vp_trompeloeil12vp_c09_aliasE', 'C09_LR': '^_ZN14vp_trompeloeil16vp_c09_lr_returnE', 'C09_POS': '^_ZN14vp_trompeloeil16vp_c09_positionsE', 'C09_A15': '^_ZN14vp_trompeloeil14vp_c09_arity15E', 'C09_A15T': '^_ZN14vp_trompeloeil20vp_c09_arity15_throwE', 'C09_RV': '^_ZN14vp_trompeloeil13vp_c09_rvalueE', 'C09_MO': '^_ZN14vp_trompeloeil15vp_c09_moveonlyE', 'C14_MOVE': '^_ZN14vp_trompeloeil11vp_c14_moveE', 'C08_THROW': '^_ZN14vp_trompeloeil12vp_c08_throwE', 'C15_PM': '^_ZN14vp_trompeloeil21vp_c15_param_mismatchE', 'OBS15': 'rec:^vp_vp_obs15$', 'OBS': 'rec:^vp_vp_obs$'},
 }
-ob(name='scenario.movable_mock_moved', kind='FC+', props=['C14', 'C03', 'C15'], unit='c09', harness='h_c09.c', entry='c_move', unwind=14, timeout=900, object_bits=12, defines={'VP_TOK_CAP': 12},
+ob(name='scenario.movable_mock_moved', cbmc_flags=['--memory-leak-check'], kind='FC+', props=['C14', 'C03', 'C15'], unit='c09', harness='h_c09.c', entry='c_move', unwind=14, timeout=900, object_bits=12, defines={'VP_TOK_CAP': 12},
    bound='none for the argument value; the scenario (movable mock with one active and one saturated expectation, moved, called, over-called) is fixed by the driver function')
-ob(name='scenario.parameter_mismatch_report', kind='BL', props=['C01', 'C15', 'C10'], unit='c09', harness='h_c09.c', entry='c_param_mismatch', unwind=26, timeout=1200, object_bits=12, defines={'VP_TOK_CAP': 24}, variants=[('fits', {'W_X': 5}), ('rejected', {'W_X': 7})], min_reach=0,
+ob(name='scenario.parameter_mismatch_report', cbmc_flags=['--memory-leak-check'], kind='BL', props=['C01', 'C15', 'C10'], unit='c09', harness='h_c09.c', entry='c_param_mismatch', unwind=26, timeout=1200, object_bits=12, defines={'VP_TOK_CAP': 24}, variants=[('fits', {'W_X': 5}), ('rejected', {'W_X': 7})], min_reach=0,
    bound='first argument 5 (fits) or 7 (rejected), second argument free; one expectation p(5, _) on a mock function of arity 2')
 UNITS['c17s'] = {'opaque': [' get_lock$', r'9vp_tracer5traceE'], 'dyn_types': [r'^sequence_handler<[01]>$', r'^call_matcher<void\(int,int\),.*>$', r'^vp_vp_tracer$'],
                  'roots': {'C17_TRACE': '^_ZN14vp_trompeloeil12vp_c17_traceE', 'OBS': 'rec:^vp_vp_obs$', 'VPTRACER': 'rec:^vp_vp_tracer$'},
                  'stub_aliases': {'TRACE_STUB': r'^f_.*9vp_tracer5traceE'}}
-ob(name='scenario.tracer_object', kind='FC+', props=['C17', 'C14'], unit='c17s', harness='h_c17s.c', entry='c_trace', unwind=26, timeout=900, object_bits=12, defines={'VP_TOK_CAP': 24},
+ob(name='scenario.tracer_object', cbmc_flags=['--memory-leak-check'], kind='FC+', props=['C17', 'C14'], unit='c17s', harness='h_c17s.c', entry='c_trace', unwind=26, timeout=900, object_bits=12, defines={'VP_TOK_CAP': 24},
    bound='none for the argument values; one tracer object, one accepted call while it is alive and one after it died')
 UNITS['c13s'] = {'opaque': [' get_lock$'], 'dyn_types': [r'^sequence_handler<[01]>$', r'^lifetime_monitor$', r'^deathwatched<vp_vp_D>$', r'^call_matcher<void\(\),std::tuple<>>$'],
                  'roots': {'C13_MACROS': '^_ZN14vp_trompeloeil13vp_c13_macrosE', 'C13_SEQ': '^_ZN14vp_trompeloeil15vp_c13_sequenceE', 'OBS': 'rec:^vp_vp_obs$'}}
-ob(name='scenario.sequenced_destruction', kind='FC+', props=['C13', 'C05', 'C06', 'C15'], unit='c13s', harness='h_c13s.c', entry='c_seq_destruction', unwind=8, timeout=900, object_bits=12,
+ob(name='scenario.sequenced_destruction', cbmc_flags=['--memory-leak-check'], kind='FC+', props=['C13', 'C05', 'C06', 'C15'], unit='c13s', harness='h_c13s.c', entry='c_seq_destruction', unwind=8, timeout=900, object_bits=12,
    bound='none: both orders (the object dies after / before the call it is sequenced behind); one sequence, one expectation, one requirement')
-ob(name='scenario.require_destruction_macros', kind='FC+', props=['C13', 'C15', 'C14'], unit='c13s', harness='h_c13s.c', entry='c_destruction', unwind=6, timeout=900, object_bits=12,
+ob(name='scenario.require_destruction_macros', cbmc_flags=['--memory-leak-check'], kind='FC+', props=['C13', 'C15', 'C14'], unit='c13s', harness='h_c13s.c', entry='c_destruction', unwind=6, timeout=900, object_bits=12,
    bound='none: both cases (a requirement is alive / none is); one deathwatched object')
-ob(name='scenario.throw_clause', kind='FC+', props=['C08', 'C03', 'C14'], unit='c09', harness='h_c09.c', entry='c_throw', unwind=6, timeout=900, object_bits=12,
+ob(name='scenario.throw_clause', cbmc_flags=['--memory-leak-check'], kind='FC+', props=['C08', 'C03', 'C14'], unit='c09', harness='h_c09.c', entry='c_throw', unwind=6, timeout=900, object_bits=12,
    bound='none for the value written by the side effect; one expectation with a side effect and THROW(7)')
 for e in ('c_alias', 'c_lr', 'c_positions', 'c_arity15', 'c_arity15_throw', 'c_rvalue', 'c_moveonly'):
-    ob(name='c09.%s' % e[2:], kind='FC+', props=['C09'], unit='c09', harness='h_c09.c', entry=e, unwind=17 if e.startswith('c_arity15') else 6, timeout=900, object_bits=12,
+    ob(name='c09.%s' % e[2:], kind='FC+', props=['C09'], cbmc_flags=['--memory-leak-check'], unit='c09', harness='h_c09.c', entry=e, unwind=17 if e.startswith('c_arity15') else 6, timeout=900, object_bits=12,
        bound='none for the values (symbolic ints); the scenario (one mock function of arity 3 / 1 / 0, the clauses listed in the harness) is fixed by the driver function')
 
 # unit mf_glue: mock_func itself as a MODULAR obligation: find(), the free report_mismatch() and the matcher's virtual run_actions() /
